@@ -132,7 +132,7 @@ pub fn scene_strategy(max_tris: usize) -> BoxedStrategy<Scene> {
             };
             let attrs = tris.iter().enumerate().map(|(i, _)| xs([i as f32, i as f32 + 0.25, i as f32 + 0.5])).collect();
             if door == 2 {
-                Scene { bw, bh, vp, tris: tris.iter().map(|t| t.map(|v| xs([v[0], v[1], v[2], 1.0]))).collect(), attrs, door: Door::Camera, target, proj: Some(proj), bg_depth: X(bg), cfg }
+                Scene { bw, bh, vp, tris: tris.iter().map(|t| t.map(|v| xs([v[0], v[1], v[2], 1.0]))).collect(), attrs, door: Door::Camera, target, proj: Some(proj), bg_depth: X(bg), cfg, shader_mode: 0, shared_verts: false }
             } else {
                 // the library's own projection matrix applied by hand
                 let m = if p.ortho {
@@ -141,7 +141,7 @@ pub fn scene_strategy(max_tris: usize) -> BoxedStrategy<Scene> {
                     perspective(p.focal, p.aspect, p.near..p.far)
                 };
                 let clip = tris.iter().map(|t| t.map(|v| xs(m.apply(&pt3(v[0], v[1], v[2])).0))).collect();
-                Scene { bw, bh, vp, tris: clip, attrs, door: if door == 0 { Door::Render } else { Door::Batch }, target, proj: Some(proj), bg_depth: X(bg), cfg }
+                Scene { bw, bh, vp, tris: clip, attrs, door: if door == 0 { Door::Render } else { Door::Batch }, target, proj: Some(proj), bg_depth: X(bg), cfg, shader_mode: 0, shared_verts: false }
             }
         })
         .boxed()
